@@ -28,17 +28,17 @@ type attrSpec struct {
 }
 
 type signSpec struct {
-	format     string // jws | cose
-	local      bool
-	keyID      string
-	chainLen   int
-	payload    string
-	cty        string
-	st         time.Time
-	expiry     time.Time
-	scheme     signature.SigningScheme
-	ext        []attrSpec
-	agent      string
+	format   string // jws | cose
+	local    bool
+	keyID    string
+	chainLen int
+	payload  string
+	cty      string
+	st       time.Time
+	expiry   time.Time
+	scheme   signature.SigningScheme
+	ext      []attrSpec
+	agent    string
 	// signer deviations
 	nilSigner    bool
 	specErr      bool
@@ -61,7 +61,7 @@ type stubLocal struct {
 }
 
 func (s *stubLocal) CertificateChain() ([]*x509.Certificate, error) { return s.certs, nil }
-func (s *stubLocal) PrivateKey() crypto.PrivateKey                    { return s.key }
+func (s *stubLocal) PrivateKey() crypto.PrivateKey                  { return s.key }
 
 func normAttrKey(format string, k any) (string, any, bool) {
 	// returns (kind, value, foldsToHeader)
@@ -676,7 +676,10 @@ func genSign(r *Runner, prop string) {
 	add("expiry-equal", "", func(s *signSpec) { s.expiry = s.st })
 	add("expiry-plus-1s", "", func(s *signSpec) { s.expiry = s.st.Add(time.Second) })
 	add("expiry-plus-half-second", "", func(s *signSpec) { s.expiry = s.st.Add(500 * time.Millisecond) })
-	add("expiry-same-second-later-nanos", "", func(s *signSpec) { s.st = s.st.Add(100 * time.Millisecond); s.expiry = s.st.Add(800 * time.Millisecond) })
+	add("expiry-same-second-later-nanos", "", func(s *signSpec) {
+		s.st = s.st.Add(100 * time.Millisecond)
+		s.expiry = s.st.Add(800 * time.Millisecond)
+	})
 	add("expiry-minus-1s", "", func(s *signSpec) { s.expiry = s.st.Add(-time.Second) })
 	add("expiry-later", "", func(s *signSpec) { s.expiry = s.st.Add(24 * time.Hour) })
 	add("expiry-without-st", "", func(s *signSpec) { s.expiry = s.st.Add(time.Hour); s.st = time.Time{} })
@@ -715,7 +718,9 @@ func genSign(r *Runner, prop string) {
 	}
 	add("st-at-leaf-notafter", "", func(s *signSpec) { s.st = getIdentity(s.keyID, s.chainLen).chain[0].NotAfter })
 	add("st-after-leaf-notafter", "", func(s *signSpec) { s.st = getIdentity(s.keyID, s.chainLen).chain[0].NotAfter.Add(time.Second) })
-	add("st-after-leaf-notafter-subsecond", "", func(s *signSpec) { s.st = getIdentity(s.keyID, s.chainLen).chain[0].NotAfter.Add(400 * time.Millisecond) })
+	add("st-after-leaf-notafter-subsecond", "", func(s *signSpec) {
+		s.st = getIdentity(s.keyID, s.chainLen).chain[0].NotAfter.Add(400 * time.Millisecond)
+	})
 	add("st-before-leaf-notbefore", "", func(s *signSpec) { s.st = getIdentity(s.keyID, s.chainLen).chain[0].NotBefore.Add(-time.Second) })
 	add("st-at-leaf-notbefore", "", func(s *signSpec) { s.st = getIdentity(s.keyID, s.chainLen).chain[0].NotBefore })
 	for _, ks := range []signature.KeySpec{{Type: signature.KeyTypeEC, Size: 384}, {Type: signature.KeyTypeEC, Size: 521}, {Type: signature.KeyTypeRSA, Size: 2048},
